@@ -6,6 +6,7 @@ import tempfile
 from lib.core import *
 from lib import gen_net as G
 from gen import c06_nets as N
+from gen import c05_linearization as tr_lin
 
 ID = "C06"
 PROPS_FILES = ["Gama/Props/C06.lean"]
@@ -20,15 +21,16 @@ RULE = ("(a) primitive calls: random base points / true point X in a 1 km square
         "perturbed 1 mm..5 m / omitted / omitted+further observations, all four algorithms; distinct by gkf text, "
         "non-trivial = at least one adjusted point")
 LEVEL_TEXT = ("partial: Lean 4 theorems over R about executable models of the approximate-coordinate building blocks "
-              "(Distance_distance: exactly the two mirror solutions; Direction_direction, Direction_distance, polar point, "
-              "similarity key: the true point is returned under the code's own guards), of Acord2::median and "
-              "Orientation::orientation (consistent directions give the true orientation unless it lies on the +-pi wrap "
-              "seam; the seam case is proved to fail: finding F15), of one refine_approx_coordinates step (exact units, "
-              "exactly the free coordinates) and of the fixed point (zero absolute terms, x = 0, stopping test passes). "
-              "NOT proved: convergence of the iterated linearisation from perturbed / omitted approximate coordinates, "
-              "completeness and scheduling of the Acord2 strategies, the Circle-based compound primitives and the "
-              "majority property of the median; these are covered by the model/implementation correspondence and by "
-              "the end-to-end search on gama-local only.")
+              "(all of g2d_cogo: Distance_distance returns exactly the two mirror solutions; Direction_direction, "
+              "Direction_distance, Circle (inscribed angle), Direction_angle, Distance_angle, Angle_angle, the polar point "
+              "and the similarity key return the true point under the code's own guards), of Acord2::median (constant and "
+              "strict-majority lists) and Orientation::orientation (consistent directions give the true orientation for "
+              "every orientation in [0,2pi), including the +-pi wrap seam, as repaired by 01e764d), of one "
+              "refine_approx_coordinates step (exact units, exactly the free coordinates) and of the fixed point (zero "
+              "absolute term for all 13 observation types of the linearisation GENERATED from local_linearization.cpp, "
+              "x = 0 solves the normal equations, the stopping test passes). NOT proved: convergence of the iterated "
+              "linearisation from perturbed / omitted approximate coordinates and the completeness and scheduling of the "
+              "Acord2 strategies; these are covered by the end-to-end search on gama-local only.")
 LEVEL_NOTE = ("Theorems are about exact real arithmetic; libm and rounding are not modelled. The end-to-end statement "
               "(adjusted = true, zero residuals, nothing removed, for every algorithm) is explored, not proved; "
               "tolerances used by the oracle: 1e-6 m when exact approximate coordinates are supplied, 1e-5 m otherwise "
@@ -60,6 +62,11 @@ local/xmlerror""".split()
 
 H = float2hex
 TWO_PI = 2 * math.pi
+
+
+def translate(ctx):
+    # Props/C06.lean states the fixed point on C05's generated linearisation: make sure it is the current tree's
+    tr_lin.translate(ctx.repo, ctx.lean)
 
 
 def build_harness(ctx):
@@ -290,6 +297,11 @@ def signature(gkf, bad, txt, variant):
     m = re.search(r"Number of linearization iterations:\s*(\d+)", txt)
     if m and int(m.group(1)) >= 5 and "from_dh" in gkf:
         return "C06-stale-x"
+    if variant.startswith("omitted") and rows and "from_dh" in gkf and \
+            all(r[2] in ("zen.", "slope") and abs(r[3]) < 2.0e4 for r in rows):
+        # approximate heights from AcordZderived without instrument/target heights accumulate along a chain
+        # until a zenith angle / slope distance exceeds tol-abs and is removed (part of finding F18)
+        return "C06-zderived-dh"
     if variant.startswith("omitted") and ("<height-differences>" in gkf or "<vectors>" in gkf) and rows:
         # approximate values were produced (no refusal) and are so wrong that observations are thrown out
         return "C06-acord-copyback"
@@ -386,7 +398,8 @@ def e2e(ctx, corr, gd, ncases, wd):
                            "truth_net": stt, "signature": sig, "unshrunk_obs": N.count_obs(v), "shrunk_obs": N.count_obs(sv)},
                           site={"F15": "Orientation::orientation", "C06-stale-x": "LocalNetwork::refine_approx_coordinates",
                                 "C06-acord-copyback": "AcordHdiff::execute / AcordVector::execute",
-                                "C06-z-underiterated": "TestLinearizationVisitor::visit(Z_Angle*) / refine_obsdh_reductions"
+                                "C06-z-underiterated": "TestLinearizationVisitor::visit(Z_Angle*) / refine_obsdh_reductions",
+                                "C06-zderived-dh": "AcordZderived::execute"
                                 }.get(sig, "gama-local"),
                           detail=txt2[:1500])
 
@@ -522,8 +535,9 @@ def search(ctx, broken, corr):
 def classify(ctx, failure):
     r = failure.replay if isinstance(failure.replay, dict) else {}
     sig = r.get("signature", "")
-    return {"F15": "C06-F15", "C06-stale-x": "C06-refine-stale-unknowns", "C06-acord-copyback": "C06-acord-copyback",
-            "C06-z-underiterated": "C06-F18", "C06-acord-incomplete": "C06-F19"}.get(sig)
+    # F15 (orientation seam) is repaired (01e764d): a recurrence is reported, not classified
+    return {"C06-stale-x": "C06-refine-stale-unknowns", "C06-acord-copyback": "C06-acord-copyback",
+            "C06-z-underiterated": "C06-F18", "C06-zderived-dh": "C06-F18", "C06-acord-incomplete": "C06-F19"}.get(sig)
 
 
 def explained_by_known(ctx, broken_item, matched_ids):
